@@ -4,6 +4,7 @@ MIR item names look like `client::<impl at cadence/src/client.rs:1011:1: 1013:22
 call sites look like `<Self as Counted<i64>>::count_with_tags` or `MetricFormatter::<'_>::format`.
 The link between the two is the `impl` header found at the printed source span.
 """
+import functools
 import os
 import re
 from typing import Dict, List, Optional, Tuple
@@ -13,6 +14,7 @@ from .mirparse import parse_mir, Func, Unsupported, split_top, match_close, OPEN
 IMPL_AT = re.compile(r'<impl at ([^:>]+):(\d+):(\d+): (\d+):(\d+)>')
 
 
+@functools.lru_cache(maxsize=None)
 def strip_generics(s: str) -> str:
     """Remove every balanced <...> group (and a preceding '::')."""
     out = []
@@ -31,6 +33,7 @@ def strip_generics(s: str) -> str:
     return ''.join(out)
 
 
+@functools.lru_cache(maxsize=None)
 def last_seg(path: str) -> str:
     path = path.strip()
     if path.startswith('&'):
@@ -41,6 +44,7 @@ def last_seg(path: str) -> str:
     return path.split('::')[-1].strip()
 
 
+@functools.lru_cache(maxsize=None)
 def type_key(ty: str) -> str:
     """Canonical short key of a type: 'Vec<u64>', 'StatsdClient', 'i32', 'Duration'."""
     ty = ty.strip()
@@ -133,6 +137,7 @@ class Program:
         self.traits_default: Dict[Tuple[str, str], str] = {}   # (Trait, method) -> func name
         self.source_cache: Dict[str, List[str]] = {}
         self.drop_impls: Dict[str, str] = {}         # type key (no generics) -> drop fn name
+        self._fim_cache = {}
 
     # -- loading ---------------------------------------------------------------
     def load(self, mir_path: str, crate: str, src_root: str):
@@ -146,6 +151,7 @@ class Program:
                 f.name = name
             self.funcs[name] = f
         self._index(funcs.values())
+        self._fim_cache = {}
 
     def _source_lines(self, crate: str, rel: str) -> List[str]:
         key = crate + ':' + rel
@@ -194,8 +200,17 @@ class Program:
                 continue
             if m and '{closure#' not in tail:
                 info = self._impl_info(f.crate, m)
+                method = tail.lstrip(':').split('::')[0].split('#')[0]
+                if '$' in info.self_ty and f.arg_types:
+                    # impl generated by macro_rules!: the header names a metavariable; the receiver type of the
+                    # MIR signature is the Self type (methods taking self / &self)
+                    t = f.arg_types[0].strip()
+                    while t.startswith('&'):
+                        t = t[1:].strip()
+                        if t.startswith('mut '):
+                            t = t[4:]
+                    info = ImplInfo(info.trait, info.trait_args, type_key(t), info.generics)
                 self.impl_of[f.name] = info
-                method = tail.lstrip(':').split('::')[0]
                 self.by_method.setdefault(method, []).append(f.name)
                 if info.trait == 'Drop' and method == 'drop':
                     self.drop_impls[strip_generics(info.self_ty)] = f.name
@@ -209,6 +224,13 @@ class Program:
     # -- resolution --------------------------------------------------------------
     def find_impl_method(self, method: str, self_ty: str, trait: Optional[str] = None,
                          trait_args: Optional[str] = None) -> Optional[str]:
+        key = (method, self_ty, trait, trait_args)
+        if key not in self._fim_cache:
+            self._fim_cache[key] = self._find_impl_method(method, self_ty, trait, trait_args)
+        return self._fim_cache[key]
+
+    def _find_impl_method(self, method: str, self_ty: str, trait: Optional[str] = None,
+                          trait_args: Optional[str] = None) -> Optional[str]:
         """Find the MIR body of `method` for receiver type key `self_ty` (+ optional trait)."""
         cands = self.by_method.get(method, [])
         self_nog = strip_generics(self_ty)
